@@ -48,7 +48,7 @@ static void emit_pattern(int fd, long n)
   {
     long k = n - done < (long)sizeof(buf) ? n - done : (long)sizeof(buf);
     for(long i = 0; i < k; ++i) buf[i] = pat(done + i);
-    if(write_all(fd, buf, k) != 0) return;
+    if(write_all(fd, buf, k) != 0) _exit(98);      // the parent must keep the stream open for as long as the child may write
     done += k;
   }
 }
@@ -56,7 +56,8 @@ static int echo_main(int argc, char** argv)
 {
   if(argc < 4) _exit(90);
   int code = 0; long nin = -1, nout = 0, nerr = 0;
-  sscanf(argv[3], "c%d,i%ld,o%ld,e%ld", &code, &nin, &nout, &nerr);
+  long late = 0;
+  sscanf(argv[3], "c%d,i%ld,o%ld,e%ld,L%ld", &code, &nin, &nout, &nerr, &late);      // L<ms>: write the output only after that long
   long got = -1; int ok = 1;
   if(nin >= 0)
   {
@@ -91,6 +92,7 @@ static int echo_main(int argc, char** argv)
   fprintf(f, "I %ld %d\n", got, ok);
   fprintf(f, "DONE\n");
   fclose(f);
+  if(late > 0) usleep((useconds_t)late * 1000);
   if(nout > 0) emit_pattern(1, nout);
   if(nerr > 0) emit_pattern(2, nerr);
   // odd codes leave through the library's own Process::exit (the exit code must reach the parent all the same)
@@ -439,8 +441,25 @@ static void do_spawn2()
   j_end();
 }
 
+// spawnlate <code> <nout>: the child writes its (small) output only after 300 ms; the parent does not read it but joins at once:
+// join() must wait for the child and report ITS exit code (the child must be able to finish writing)
+static void do_spawnlate()
+{
+  int code = (int)tok_int(); long nout = tok_int();
+  char d[128]; snprintf(d, sizeof(d), "c%d,i-1,o%ld,e0,L300", code, nout);
+  char* a[] = { g_self, (char*)"--echo", g_rep, d, 0 };
+  String exe(g_self, String::length(g_self));
+  Map<String, String> env;
+  Process p;
+  bool st = p.open(exe, 4, a, Process::stdoutStream, env);
+  uint32 xc = 999; bool jr = false;
+  if(st) jr = p.join(xc);
+  j_begin("spawnlate"); j_int("code", code); j_int("nout", nout); j_bool("st", st); j_bool("jr", jr); j_int("xc", xc); j_end();
+}
+
 void drv_apply(const char* op)
 {
+  if(!strcmp(op, "spawnlate")) { do_spawnlate(); return; }
   if(!strcmp(op, "spawn2")) { do_spawn2(); return; }
   if(!strcmp(op, "selto")) { g_selto = 1; fputs("{\"op\":\"selto\"}\n", g_out); return; }
   if(!strcmp(op, "args")) do_args();
